@@ -153,6 +153,60 @@ impl AtomicUsize {
         self.rmw(|a| a.fetch_and(val, ord))
     }
 
+    // The rest of std's AtomicUsize surface, so that code which starts using
+    // it still builds (and is still scheduled) under the guard.
+    #[inline]
+    pub fn swap(&self, val: usize, ord: Ordering) -> usize {
+        self.rmw(|a| a.swap(val, ord))
+    }
+
+    #[inline]
+    pub fn fetch_xor(&self, val: usize, ord: Ordering) -> usize {
+        self.rmw(|a| a.fetch_xor(val, ord))
+    }
+
+    #[inline]
+    pub fn fetch_nand(&self, val: usize, ord: Ordering) -> usize {
+        self.rmw(|a| a.fetch_nand(val, ord))
+    }
+
+    #[inline]
+    pub fn fetch_max(&self, val: usize, ord: Ordering) -> usize {
+        self.rmw(|a| a.fetch_max(val, ord))
+    }
+
+    #[inline]
+    pub fn fetch_min(&self, val: usize, ord: Ordering) -> usize {
+        self.rmw(|a| a.fetch_min(val, ord))
+    }
+
+    #[inline]
+    pub fn fetch_update<F: FnMut(usize) -> Option<usize>>(
+        &self,
+        set_order: Ordering,
+        fetch_order: Ordering,
+        mut f: F,
+    ) -> Result<usize, usize> {
+        let mut prev = self.load(fetch_order);
+        while let Some(next) = f(prev) {
+            match self.compare_exchange_weak(prev, next, set_order, fetch_order) {
+                x @ Ok(_) => return x,
+                Err(next_prev) => prev = next_prev,
+            }
+        }
+        Err(prev)
+    }
+
+    #[inline]
+    pub fn get_mut(&mut self) -> &mut usize {
+        self.0.get_mut()
+    }
+
+    #[inline]
+    pub fn into_inner(self) -> usize {
+        self.0.into_inner()
+    }
+
     #[inline]
     pub fn compare_exchange(
         &self,
@@ -228,6 +282,43 @@ impl<T> AtomicPtr<T> {
                 v
             }
         }
+    }
+
+    #[inline]
+    pub fn store(&self, val: *mut T, ord: Ordering) {
+        match rt() {
+            None => self.0.store(val, ord),
+            Some(r) => {
+                r.point(Op::PtrCas, self.addr());
+                let old = self.0.load(Ordering::Relaxed);
+                self.0.store(val, ord);
+                r.done(Op::PtrCas, self.addr(), val as usize, old != val);
+            }
+        }
+    }
+
+    #[inline]
+    pub fn swap(&self, val: *mut T, ord: Ordering) -> *mut T {
+        match rt() {
+            None => self.0.swap(val, ord),
+            Some(r) => {
+                r.point(Op::PtrCas, self.addr());
+                let old = self.0.swap(val, ord);
+                r.done(Op::PtrCas, self.addr(), old as usize, old != val);
+                old
+            }
+        }
+    }
+
+    #[inline]
+    pub fn compare_exchange_weak(
+        &self,
+        current: *mut T,
+        new: *mut T,
+        success: Ordering,
+        failure: Ordering,
+    ) -> Result<*mut T, *mut T> {
+        self.compare_exchange(current, new, success, failure)
     }
 
     #[inline]
